@@ -181,6 +181,20 @@ int main() {
         in >> d;
         st->expansion(d);
         vh::emit("ok " + dump(*st));
+      } else if (op == "reexp") {
+        // history-dependent route to the same result: expand, take every simplex of dimension >= 2 out again with
+        // remove_maximal_simplex (top dimension first; the cached dimension bound is then stale), expand again
+        int d;
+        in >> d;
+        st->expansion(d);
+        for (int k = st->dimension(); k >= 2; --k) {
+          std::vector<std::vector<typename ST::Vertex_handle>> top;
+          for (auto sh : st->complex_simplex_range())
+            if (st->dimension(sh) == k) { top.emplace_back(); for (auto v : st->simplex_vertex_range(sh)) top.back().push_back(v); }
+          for (auto& s : top) st->remove_maximal_simplex(st->find(s));
+        }
+        st->expansion(d);
+        vh::emit("ok " + dump(*st));
       } else if (op == "blk") {
         int d;
         std::string kind;
